@@ -79,6 +79,7 @@ type concRun struct {
 	sigs    []string
 	stop    int32
 	wdone   int32
+	opened  int32
 	events  []Event
 	evMu    sync.Mutex
 	results sync.Map // writer call id → error class (for C10)
@@ -152,7 +153,11 @@ func runConc(cfg ConcCfg, record bool) *concRun {
 	}
 	if record {
 		leveldb.VerifSink = func(point string, args []interface{}) {
-			if len(point) > 2 && point[:2] == "w." {
+			switch point {
+			case "w.group", "w.publish", "m.rotate", "c.flush", "v.install", "m.drop", "c.table", "t.open", "t.installed", "t.publish", "t.done":
+				if atomic.LoadInt32(&cr.opened) == 0 {
+					return // recovery and the initial buffer belong to Open
+				}
 				cr.evMu.Lock()
 				cr.events = append(cr.events, Event{point, args})
 				cr.evMu.Unlock()
@@ -168,6 +173,7 @@ func runConc(cfg ConcCfg, record bool) *concRun {
 		return cr
 	}
 	cr.db = db
+	atomic.StoreInt32(&cr.opened, 1)
 	var wg sync.WaitGroup
 	closed := int32(0)
 	pad := func(rr *rng.R) int { return rr.Intn(40) }
@@ -480,7 +486,15 @@ func init() {
 		n := c.Scale(40, 600)
 		for i := 0; i < n && c.TimeLeft() && !c.Hung; i++ {
 			cfg := randConcCfg(c.R.Fork())
-			cr := runConc(cfg, false)
+			traced := i%2 == 0
+			cr := runConc(cfg, traced)
+			if traced && len(cr.fails) == 0 {
+				cr.evMu.Lock()
+				evs := append([]Event(nil), cr.events...)
+				cr.evMu.Unlock()
+				concLines(c, evs)
+				c.Res.CountN("trace", "events", len(evs))
+			}
 			reads := int64(0)
 			for k, v := range cr.stats {
 				c.Res.CountN("activity", k, int(atomic.LoadInt64(v)))
@@ -499,6 +513,61 @@ func init() {
 				}
 				return
 			}
+		}
+	}
+}
+
+// concLines renders the recorded synchronisation events in the grammar of lean/GoLevel/Driver/Conc.lean.
+func concLines(c *Ctx, evs []Event) {
+	c.Lean("conc reset 0", "ok")
+	flushTable := int64(-1)
+	for _, e := range evs {
+		arg := func(i int) interface{} {
+			if i < len(e.Args) {
+				return e.Args[i]
+			}
+			return nil
+		}
+		switch e.Point {
+		case "w.group":
+			seq, _ := arg(0).(uint64)
+			n, _ := arg(1).(int)
+			c.Lean(fmt.Sprintf("conc insert %d %d", seq, n), "ok")
+		case "w.publish":
+			seq, _ := arg(0).(uint64)
+			c.Lean(fmt.Sprintf("conc publish %d", seq), "ok")
+		case "m.rotate":
+			c.Lean("conc rotate", "ok")
+		case "c.flush":
+			if rec, _ := arg(1).(*leveldb.VerifRecord); rec != nil && len(rec.Added) == 1 {
+				flushTable = rec.Added[0].Num
+			}
+		case "v.install":
+			if rec, _ := arg(1).(*leveldb.VerifRecord); rec != nil && flushTable >= 0 {
+				for _, t := range rec.Added {
+					if t.Num == flushTable {
+						c.Lean("conc flushinstall", "ok")
+						flushTable = -1
+						break
+					}
+				}
+			}
+		case "m.drop":
+			c.Lean("conc drop", "ok")
+		case "c.table":
+			minSeq, _ := arg(1).(uint64)
+			c.Lean(fmt.Sprintf("conc compact %d", minSeq), "ok")
+		case "t.open":
+			base, _ := arg(0).(uint64)
+			c.Lean(fmt.Sprintf("conc tropen %d", base), "ok")
+		case "t.installed":
+			seq, _ := arg(0).(uint64)
+			c.Lean(fmt.Sprintf("conc trinstall %d", seq), "ok")
+		case "t.publish":
+			seq, _ := arg(0).(uint64)
+			c.Lean(fmt.Sprintf("conc trpublish %d", seq), "ok")
+		case "t.done":
+			c.Lean("conc trdone", "ok")
 		}
 	}
 }
